@@ -42,6 +42,16 @@ DensityGrid DensityGrid::fromIspdCircuit(const Circuit &circuit,
     clippedRows.emplace_back(row.minX + margin, row.maxX - margin, row.minY,
                              row.maxY);
   }
+  if (clippedRows.empty()) {
+    // Every row is narrower than the margins (or fully obstructed): keep a
+    // placement area inside the rows rather than an empty one at the origin
+    for (Row row : rows) {
+      clippedRows.push_back(row);
+    }
+    if (clippedRows.empty() && circuit.nbRows() > 0) {
+      clippedRows.push_back(circuit.computePlacementArea());
+    }
+  }
   return DensityGrid(sizeFactor * minCellHeight, clippedRows);
 }
 
